@@ -335,10 +335,7 @@ impl std::ops::Rem<FeelNumber> for FeelNumber {
   type Output = Self;
   ///
   fn rem(self, rhs: Self) -> Self::Output {
-    Self(dec_reduce(&dec_subtract(
-      &self.0,
-      &dec_multiply(&rhs.0, &dec_floor(&dec_divide(&self.0, &rhs.0))),
-    )))
+    Self(dec_modulo(&self.0, &rhs.0))
   }
 }
 
@@ -353,7 +350,7 @@ impl std::ops::Neg for FeelNumber {
 impl std::ops::RemAssign<FeelNumber> for FeelNumber {
   ///
   fn rem_assign(&mut self, rhs: Self) {
-    self.0 = dec_reduce(&dec_subtract(&self.0, &dec_multiply(&rhs.0, &dec_floor(&dec_divide(&self.0, &rhs.0)))));
+    self.0 = dec_modulo(&self.0, &rhs.0);
   }
 }
 
@@ -458,6 +455,18 @@ from_feel_number_into!(isize);
 from_feel_number_into!(usize);
 from_feel_number_into!(u64);
 from_feel_number_into!(u32);
+
+/// Calculates `dividend - divisor * floor(dividend / divisor)` without intermediate rounding:
+/// the exact remainder of the truncated division carries the sign of the dividend, so the
+/// divisor is added once when the signs differ (this single addition is the only rounding).
+fn dec_modulo(dividend: &DecQuad, divisor: &DecQuad) -> DecQuad {
+  let remainder = dec_remainder(dividend, divisor);
+  if dec_is_finite(&remainder) && !dec_is_zero(&remainder) && dec_is_negative(&remainder) != dec_is_negative(divisor) {
+    dec_reduce(&dec_add(&remainder, divisor))
+  } else {
+    dec_reduce(&remainder)
+  }
+}
 
 /// Converts a string in scientific notation into digits without exponent.
 fn scientific_to_plain(s: String) -> String {
